@@ -10,6 +10,7 @@ EXTENDS Frost, Json
 CONSTANTS Shapes,        \* set of <<n, t>>
           IdSets,        \* set of identifier sets
           KeyChoices, CoeffChoices, RandChoices, Msgs,
+          ListOrders,    \* orders in which the dealer is handed the identifier list: subset of {"asc","desc","rot"}
           MaxExtra,      \* |S| <= t + MaxExtra
           EMIT           \* print one replayable script per finished behaviour
 
@@ -28,8 +29,8 @@ KeyGen ==
   /\ pc[1] = "keygen"
   /\ \E sh \in Shapes, I \in IdSets, key \in KeyChoices :
        /\ Card(I) = sh[1]
-       /\ \E cs \in SeqsOf(CoeffChoices, sh[2] - 1) :
-            /\ ActSplit("ss", PKP, key, sh[1], sh[2], Sorted(I), TRUE, cs)
+       /\ \E cs \in SeqsOf(CoeffChoices, sh[2] - 1), lo \in ListOrders :
+            /\ ActSplit("ss", PKP, key, sh[1], sh[2], OrderOf(Sorted(I), lo), TRUE, cs)
             /\ sc' = [n |-> sh[1], t |-> sh[2], ids |-> Sorted(I), key |-> key]
   /\ Go(<<"kp", 1>>)
 
@@ -41,7 +42,8 @@ MakeKp ==
 
 Choose ==
   /\ pc[1] = "choose"
-  /\ \E S \in SUBSET {sc.ids[k] : k \in 1..sc.n}, m \in Msgs :
+  /\ \E S \in (IF sc.t = sc.n THEN {{sc.ids[k] : k \in 1..sc.n}}      \* (no 2^n enumeration in size sweeps)
+                ELSE SUBSET {sc.ids[k] : k \in 1..sc.n}), m \in Msgs :
        /\ Card(S) >= sc.t /\ Card(S) <= sc.t + MaxExtra
        /\ sc' = sc @@ [S |-> Sorted(S), msg |-> m]
   /\ pc' = <<"commit", 1>>
